@@ -31,7 +31,7 @@ RULE = ("sessions on generated directories: 2-4 loaded species (1-3 residues eac
         "call sequences: all ends+maps+extrapolate, no end, no maps, an end molecule added after the maps were "
         "calculated (then completed), two scale factors in turn, re-adding the same end, growing subset, unknown / "
         "non-matching end molecule, end molecules with velocities (all / mixed), a target with another number of "
-        "residues; plus the shipped BMIM/BF4 box. A session is non-trivial when distinct.")
+        "residues; one title line in twelve is empty; plus the shipped BMIM/BF4 box. A session is non-trivial when distinct.")
 
 ECODES = [(OSError, 1), (IndexError, 2), (ValueError, 3), (SystemError, 5), (TypeError, 6), (KeyError, 7)]
 
@@ -403,6 +403,16 @@ def read_fixed(text):
     return {"title": lines[0], "count": n, "atoms": atoms, "box": boxl}
 
 
+def diagnose(text):
+    """first atom line whose length differs from that of the first one (for the violation message)"""
+    lines = text.split("\n")
+    body = lines[2:-2]
+    for i, ln in enumerate(body):
+        if len(ln) != len(body[0]):
+            return ": atom line %d has %d characters, the first has %d: %r" % (i + 1, len(ln), len(body[0]), ln[:24])
+    return ""
+
+
 def field_dec(txt):
     """(neg, mantissa, decimals) of a fixed-point field"""
     t = txt.strip()
@@ -583,7 +593,7 @@ def oracle_file(spec, tr, complete, mapped, o, man):
         return ["extrapolation returned normally but wrote no file"]
     got = read_fixed(o["text"])
     if got is None:
-        return ["the written file is not a complete .gro file (count line / atom lines / box line)"]
+        return ["the written file is not a complete .gro file (count line / atom lines / box line)" + diagnose(o["text"])]
     if got["title"] != spec["title"]:
         bad.append("title %r != input title %r" % (got["title"], spec["title"]))
     try:
@@ -866,7 +876,7 @@ def correspondence(ctx):
         specs.insert(0, shipped_spec(100, s=1.0))       # first: its shard is the longest
     cases, metas, hist = [], [], {}
     feat = {"triclinic": 0, "small_reference": 0, "multi_residue": 0, "wrap_resid": 0, "velocities": 0, "extrap_calls": 0,
-            "files_written": 0, "refused_no_file": 0}
+            "files_written": 0, "refused_no_file": 0, "empty_title": 0}
     for spec in specs:
         obs, bad = check_spec(ctx, spec, "K case")
         cases.append(case_term(spec, obs))
@@ -877,6 +887,7 @@ def correspondence(ctx):
         feat["small_reference"] += d["small_reference"]
         feat["multi_residue"] += d["max_residues"] > 1
         feat["wrap_resid"] += spec["resid0"] > 90000
+        feat["empty_title"] += spec["title"] == ""
         feat["velocities"] += any(sp.get("aa_vel") is not None for sp in spec["species"])
         for o in obs:
             if o["op"][0] == "extrap":
